@@ -466,3 +466,48 @@ Definition oracle_main3 (input : list N) : list N :=
   | 3 :: n :: toks => run_batch (N.to_nat n) toks []
   | _ => show_line [997]
   end.
+
+(* ---------- engine 4: collection file names ---------- *)
+From Syz Require Import PathClean.
+
+Definition run_path (toks : list N) : list N :=
+  match rd_bytes toks with
+  | Some (df, r) =>
+      match rd_bytes r with
+      | Some (name, _) =>
+          let p := collection_file df name in
+          show_line ((if valid_name name then 1 else 0) :: blen p :: p)
+      | None => show_line [996]
+      end
+  | None => show_line [996]
+  end.
+
+Fixpoint run_batch4 (n : nat) (l : list N) (acc : list N) : list N :=
+  match n with
+  | O => acc
+  | S k =>
+      match l with
+      | cnt :: r =>
+          match take_n (N.to_nat cnt) r [] with
+          | Some (case, r') =>
+              let out := match case with
+                         | 1 :: toks => run_store toks
+                         | 2 :: toks => run_filter toks
+                         | 4 :: toks => run_path toks
+                         | _ => show_line [997]
+                         end in
+              run_batch4 k r' (acc ++ out ++ show_line [777])
+          | None => acc ++ show_line [995]
+          end
+      | [] => acc ++ show_line [995]
+      end
+  end.
+
+Definition oracle_main4 (input : list N) : list N :=
+  match tokenize input None [] with
+  | 1 :: toks => run_store toks
+  | 2 :: toks => run_filter toks
+  | 3 :: n :: toks => run_batch4 (N.to_nat n) toks []
+  | 4 :: toks => run_path toks
+  | _ => show_line [997]
+  end.
